@@ -122,6 +122,9 @@ class Job:
             plain, root, fp = fc.text_keys(repo.texts)
             sigs = sorted(fc.num(k[0]) for k in repo.signatures.keys())
             test, tree = fc.per_revision(repo, self.n, revs)
+            # what check() already says about the SOURCE is not the copy's doing (e.g. a knit commit picks per-file
+            # parents by revision-graph heads, which check() calls inconsistent after a delete / re-add)
+            self.source_problems = set(fc.check_problems(repo))
         return P, {"ssigs": sigs, "stexts": plain, "sroot": root, "sfp": fp, "stest": test, "stree": tree}
 
     def do_op(self, op, rev, name, objs=None):
@@ -156,7 +159,7 @@ class Job:
             sigs = sorted(fc.num(k[0]) for k in repo.signatures.keys())
             plain, root, fp = fc.text_keys(repo.texts)
             test, tree = fc.per_revision(repo, self.n, set(revs))
-            chk = fc.check_text(repo)
+            chk = "; ".join([p for p in fc.check_problems(repo) if p not in self.source_problems][:4]) or "ok"
         return {"trevs": revs, "tinvs": invs, "tsigs": sigs, "ttexts": plain, "troot": root, "tfp": fp, "ttest": test,
                 "ttree": tree, "check": chk, "names1": fc.names_digest(repo._transport), "dir1": fc.dir_digest(repo._transport)}
 
@@ -218,6 +221,10 @@ def replay_jobs(sub, chunk):
                 o, calls = job.run_case(S, rev, op)
                 o.update(so)
                 spec = dict(exp, stexts=hist["texts"], sfp=hist["fpk"])
+                if job.sfmt == "knit":
+                    # the commit RULE (per-file heads) is not what a knit repository's commit builder applies (it takes
+                    # revision-graph heads; C02 leaves knit out too): no model comparison of the SOURCE's keys here
+                    spec.update(stexts=so["stexts"], sfp=so["sfp"])
                 rows.append({"c": {"P": P, "rev": rev}, "impl": o, "spec": spec,
                              "meta": {"config": config[0], "hist": hist["idx"], "pat": hist["pat"], "S": S, "op": op,
                                       "calls": calls, "trees": hist["T"]}})
@@ -369,7 +376,7 @@ def judge(ctx, rows, selftest=True):
             continue
         row = by_id[id(srow)]
         m, o = row["meta"], row["impl"]
-        shape = "%s:%s:%s" % (m["config"], m["op"], "ghost" if any(fc.GHOST in ps for ps in row["c"]["P"]) else "plain")
+        shape = "%s:%s:%s" % (m["config"], m["op"], "ghost" if any(p > len(row["c"]["P"]) for ps in row["c"]["P"] for p in ps) else "plain")
         for law in failed:
             ctx.violation("law:%s:%s" % (law, shape),
                           "law %s fails for %s of r%d into a target holding %s (%s, graph %s): %s" % (
